@@ -122,6 +122,10 @@ func Call(o *Out, doc map[string]any, sql string, opts ...genql.QueryOption) {
 var Usage func(what string)
 var inUsage bool
 
+// UsageForcePrepare runs the Parse + Prepare path also for queries built with options (which that
+// path cannot reproduce): then only "the document is not modified" is checked.
+var UsageForcePrepare bool
+
 // sameResult compares two rendered results: as sequences, or - for joins, whose row order is not
 // fixed - as multisets of rows.
 func sameResult(sql string, a, b []any) bool {
@@ -205,9 +209,10 @@ func usageChecks(o *Out, doc map[string]any, sql string, opts []genql.QueryOptio
 			ok = false
 		}
 	})
-	if !ok || len(opts) != 0 {
+	if !ok || (len(opts) != 0 && !UsageForcePrepare) {
 		return
 	}
+	forced := len(opts) != 0
 	stmt, err := genql.Parse(sql)
 	if err != nil {
 		return
@@ -223,11 +228,21 @@ func usageChecks(o *Out, doc map[string]any, sql string, opts []genql.QueryOptio
 				return
 			}
 			if err != nil {
-				Usage(fmt.Sprintf("%s: built through Parse + Prepare(doc, stmt, &Options{}) (build #%d from one parsed statement) fails: %v; New + Exec returns %s", sql, k+1, err, first))
+				if !forced {
+					Usage(fmt.Sprintf("%s: built through Parse + Prepare(doc, stmt, &Options{}) (build #%d from one parsed statement) fails: %v; New + Exec returns %s", sql, k+1, err, first))
+				}
 				ok = false
 				return
 			}
 			prow, perr := pq.Exec()
+			if forced {
+				// the query was built with options this path cannot reproduce: only the document is checked
+				if d := psnap.Diff(pdoc); d != "" {
+					Usage(fmt.Sprintf("%s: Parse + Prepare(doc, stmt, &Options{}) + Exec changed the document: %s", sql, d))
+				}
+				ok = false
+				return
+			}
 			if perr != nil || !sameResult(sql, prow, firstRows) {
 				Usage(fmt.Sprintf("%s: built through Parse + Prepare(doc, stmt, &Options{}) (build #%d from one parsed statement) returns %s (%v); New + Exec returns %s", sql, k+1, Render(prow), perr, first))
 				ok = false
